@@ -90,11 +90,25 @@ def client_canon(client_ops, res, http):
     return cs, store
 
 
-def gen_scenario(rng, http=False, thorough=False):
+SCHED = {"code": "(1)", "verif_tmpl": {"t": "lit", "v": 1}}
+
+def gen_scenario(rng, http=False, thorough=False, shared=False):
     n = rng.choice([2, 3, 4, 8, 16])
     clients = []
     for i in range(n):
         ops = gen_c17.loc_ops(rng, rng.randint(6, 16 if not thorough else 30), clear_prob=0.03)
+        if shared:
+            # operations that reach objects shared by all locations of the engine: the cron service (scheduled rules) and the
+            # storage's table of locations (DeleteLocation); each client still only touches its own location
+            extra = []
+            for k in range(rng.randint(4, 10)):
+                z = rng.random()
+                if z < 0.45: extra.append({"op": "addRule", "id": "s%d" % rng.randint(0, 2), "rule": {"schedule": rng.choice(["0 0 1 1 *", "+10h"]), "action": SCHED}})
+                elif z < 0.75: extra.append({"op": "remRule", "id": "s%d" % rng.randint(0, 2)})
+                elif z < 0.9: extra.append({"op": "deleteLocation"})
+                else: extra.append({"op": "addFact", "id": "g%d" % k, "fact": {"k": k}})
+            for e_ in extra:
+                ops.insert(rng.randint(0, len(ops)), e_)
         if http:
             ops = [o for o in ops if o["op"] in HTTP_OPS] or [{"op": "size"}]
         name = "L%d" % i
@@ -169,7 +183,8 @@ def main():
     scen = []
     for k in range(nsc):
         http = (k % 4 == 3)
-        scen.append({"clients": gen_scenario(rng, http=http, thorough=ck.thorough), "http": http,
+        shared = (k % 5 == 1) and not http
+        scen.append({"clients": gen_scenario(rng, http=http, thorough=ck.thorough, shared=shared), "http": http, "nomodel": shared,
                      "ttl": rng.choice(["never", "forever", "forever", "1ms"]), "state": rng.choice(["indexed", "linear"]),
                      "inject": (k % 2 == 0)})   # inject=False: the very first requests create the storage themselves
     conc_cases = [{"kind": "c11.run", "ttl": s["ttl"], "state": s["state"], "check": False, "inject": s["inject"], "http": s["http"],
@@ -189,7 +204,7 @@ def main():
     mcases, mref = [], []
     for (si, ci), sc in zip(solo_ref, solo_cases):
         s = scen[si]
-        if s["http"] or solo[(si, ci)] is None:
+        if s["http"] or s.get("nomodel") or solo[(si, ci)] is None:
             continue
         ops = copy.deepcopy(sc["clients"][0]["ops"])
         outs = solo[(si, ci)].get("outs") or []
